@@ -49,19 +49,17 @@ static void scenario(int pre, int bst, int ffirst)
     /* ghost: the flush task orders like a writer of the tile, keeps the value */
     int fl_tile[NF] = { 0 }, fl_op[NF] = { OP_RW };
     if(used[0]) { p_is_flush[TFA] = 1; prog_record(TFA, 1, fl_tile, fl_op); }
-    /* both flush task objects use the class registered as PARSEC_DTD_FLUSH_TC_ID; the second allocation of
-     * flush_all is served by object TFB whose class object is a copy of the same registration */
-    int slotA = vp_auto_slot;
+    /* the real code allocates the flush tasks itself: the first allocation is served by object TFA, the second by
+     * TFB (both class objects carry the PARSEC_DTD_FLUSH_TC_ID registration; the code looks the class up in
+     * task_classes_array[0] = TFA's class object, which is what every flush task then points to) */
     if(!used[0]) vp_auto_slot = TFB;        /* A inserts no flush task: B's flush task is object TFB all the same */
 
 #if FLUSH_ALL
     if(used[1]) { fl_tile[0] = 1; p_is_flush[TFB] = 1; prog_record(TFB, 1, fl_tile, fl_op); }
-    if(used[0] && used[1]) { /* first allocation -> TFA (tile A is visited first), second -> TFB */ }
     int rc = parsec_dtd_data_flush_all(&TP.super, &DC);
 #else
     int rc = parsec_dtd_data_flush(&TP.super, &TL(0));
 #endif
-    (void)slotA;
     VASSERTM(rc == PARSEC_SUCCESS, "flush returns success");
 
     int nflushed = 0;
@@ -80,8 +78,6 @@ static void scenario(int pre, int bst, int ffirst)
             VASSERTM(TL(t).last_user.task == f && TL(t).last_writer.task == f && TL(t).last_user.flow_index == 0, "tile chain ends in the flush task");
             VASSERTM(TL(t).super.super.obj_reference_count == 2 && g_tile_freed[t] == 0, "the tile stays alive exactly through the reference held by its flush task");
             VASSERTM(vp_refs(ft[t]) == 3 && g_freed[ft[t]] == 0, "flush task: mempool + executed + write-flow references");
-            int wdone = p_done[lw_task[t] == ft[t] ? 0 : 0];
-            (void)wdone;
         } else {
             VASSERTM(g_sched[ft[t]] == 0 && TL(t).last_user.task == NULL && TL(t).last_writer.task == NULL, "never used tile: no flush task, chain untouched");
             VASSERTM(g_tile_freed[t] == 1 && TL(t).super.super.obj_reference_count == 1, "never used tile: recycled at once, exactly once");
